@@ -85,6 +85,7 @@ def build_history(sums, n, tagp='c'):
 def check(R, tier):
     R.fallback_kinds = {'rollback'}
     I = R.interp('tough'); install_world(I)
+    cycle_composition(R, I)
     hops = 1
     ncyc = (2, 3) if tier == 'quick' else (2, 3, 4)
     R.bounds.update({'cycles': f'2..{ncyc[-1]}, first one from an empty datastore', 'root hops per cycle': hops, 'versions': 'any u64 per role per cycle',
@@ -146,10 +147,12 @@ def check(R, tier):
         elif r == z3.unknown:
             R.inconclusive.append(f'witness query for recorded finding {key} unknown')
     finalize(R, sums)
+    replay_composition(R)
 
 def finalize(R, sums):
     """any counterexample outside the known class: decode, replay, report"""
     for cx in R.counterexamples:
+        if cx['group'].startswith('composition/'): continue
         if not cx['group'].startswith('history-'):
             R.inconclusive.append(f'counterexample for "{cx["obligation"]}": {str(cx.get("model"))[:300]}'); continue
         n = int(cx['group'].split('-')[1].split('/')[0])
